@@ -97,6 +97,34 @@ PROBES = [
     ("module.imported.only.by.failed.module", "import \"gcreg\"; try { import \"gcfail2\"; } catch err { print(err); } churn(); print(gcreg.hooks[0]());"),
 ]
 
+# objects made on the fly, used through every access route and dropped, in an ASYMMETRIC rhythm (shapes alternate with period 3, garbage of
+# varying size in between) so that the block of a reclaimed object is re-used by a different one: anything the interpreter remembers about
+# an object by its address (a look-up cache, a memo table) then answers for the wrong object.  Each object must answer with its own tag.
+_CHURN_SHAPES = (
+    "fn make_plain(tag) { #[constructor(new)] class H { fn who(self) { return tag; } #[static] fn swho() { return tag; } } return H; } "
+    "fn make_rich(tag) { #[constructor(new)] class H { fn describe(self) { return \"h${tag}\"; } fn who(self) { return tag; } fn iter(self) { return [tag].iter(); } "
+    "#[static] fn swho() { return tag; } } return H; } "
+    "fn make_sub(tag) { var B = make_plain(0 - tag); #[derive(B), constructor(new)] class S { fn who(self) { return tag; } fn up(self) { return super.who(); } } return S; } "
+    "fn pad(n) { var g = []; var i = 0; while i < n { g.push([i]); i = i + 1; } return g; } ")
+_CHURN_LOOP = ("var bad = 0; var r = 0; while r < %d { var C = nil; if r %% 3 == 0 { C = make_rich(r); } else { if r %% 7 == 0 { C = make_sub(r); } else { C = make_plain(r); } } "
+               "var h = C.new(); %s pad(r %% 5); r = r + 1; } print(bad);")
+CHURN_PROBES = [
+    ("churn.class.invoke", _CHURN_SHAPES + _CHURN_LOOP % (240, "if h.who() != r { bad = bad + 1; }")),
+    ("churn.class.bound", _CHURN_SHAPES + _CHURN_LOOP % (240, "var m = h.who; if m() != r { bad = bad + 1; }")),
+    ("churn.class.static", _CHURN_SHAPES + _CHURN_LOOP % (240, "if C.swho() != r { bad = bad + 1; } if h.swho() != r { bad = bad + 1; }")),
+    ("churn.class.super", _CHURN_SHAPES + _CHURN_LOOP % (240, "if r %% 7 == 0 && r %% 3 != 0 { if h.up() != 0 - r { bad = bad + 1; } } if h.who() != r { bad = bad + 1; }")),
+    ("churn.class.protocol", _CHURN_SHAPES + _CHURN_LOOP % (240, "if r %% 3 == 0 { for x in h { if x != r { bad = bad + 1; } } } if type(h) != C { bad = bad + 1; } if !h.derives(C) { bad = bad + 1; }")),
+    ("churn.class.field.over.method", _CHURN_SHAPES + _CHURN_LOOP % (240, "if r %% 2 == 0 { h.who = || r + 1000; if h.who() != r + 1000 { bad = bad + 1; } } else { if h.who() != r { bad = bad + 1; } }")),
+    ("churn.closures", "fn pad(n) { var g = []; var i = 0; while i < n { g.push([i]); i = i + 1; } return g; } fn mk(tag) { if tag % 3 == 0 { return || tag; } return |x| tag + x; } "
+                       "var bad = 0; var r = 0; while r < 300 { var f = mk(r); if r % 3 == 0 { if f() != r { bad = bad + 1; } } else { if f(1) != r + 1 { bad = bad + 1; } } pad(r % 4); r = r + 1; } print(bad);"),
+    ("churn.fibers", "fn pad(n) { var g = []; var i = 0; while i < n { g.push([i]); i = i + 1; } return g; } var bad = 0; var r = 0; while r < 200 { var fb = nil; "
+                     "if r % 3 == 0 { fb = Fiber.new(|| { Fiber.yield(r); return r + 1; }); if fb.call() != r { bad = bad + 1; } if fb.call() != r + 1 { bad = bad + 1; } } "
+                     "else { fb = Fiber.new(|a| a + r); if fb.call(1) != r + 1 { bad = bad + 1; } } pad(r % 4); r = r + 1; } print(bad);"),
+    ("churn.maps.and.iterators", "fn pad(n) { var g = []; var i = 0; while i < n { g.push([i]); i = i + 1; } return g; } var bad = 0; var r = 0; while r < 300 { var m = {r: [r], (r, 1): r}; "
+                                 "if m.get(r)[0] != r { bad = bad + 1; } if m.get((r, 1)) != r { bad = bad + 1; } var it = [r, r + 1].iter().map(|v| v * 2); if it.next() != r * 2 { bad = bad + 1; } "
+                                 "var rg = r..(r + 2); var n = 0; for x in rg { n = n + x; } if n != r + r + 1 { bad = bad + 1; } pad(r % 6); r = r + 1; } print(bad);"),
+]
+
 # every built-in the interpreter itself keeps using - the error classes it raises, StopIter and the iterator classes of core.yl, the classes
 # of built-in values - re-bound by the program (so that only the interpreter still refers to the object), a collection, MANY new classes
 # (whatever was freed gets reused), and then operations that make the interpreter use the object again
@@ -148,4 +176,4 @@ PROBE_F3 = ("upvalue.open.into.dropped.fiber",
 
 
 def all_probes():
-    return [(n, CHURN + src, PROBE_MODULES) for n, src in PROBES + REBOUND]
+    return [(n, CHURN + src, PROBE_MODULES) for n, src in PROBES + REBOUND + CHURN_PROBES]
